@@ -38,6 +38,8 @@ def tree(rng, depth, used):
         if rng.random() < 0.2:
             c = bytes(rng.choice(b"ab-\n\r =\xc3\xa9") for _ in range(rng.randint(0, 60)))
         kind = "s" if valid_utf8(c) and rng.random() < 0.7 else "b"
+        if rng.random() < 0.15:
+            kind = "P" if valid_utf8(c) else "Q"
         cte = rng.choice(["a", "a", "a", "q", "b", "n"])
         return f"S {hexs(rng.choice(CTYPES))} {cte} {kind} {hexs(c)}"
     b = rng.choice(BOUNDARIES)
@@ -48,7 +50,7 @@ def tree(rng, depth, used):
             used.add(b)
     n = rng.choice([0, 1, 2, 2, 3, 5])
     kids = " ".join(tree(rng, depth - 1, used) for _ in range(n))
-    return f"M {rng.choice('marse')} {hexs(b) if b != '-' else '-'} {n}" + (" " + kids if kids else "")
+    return f"M {rng.choice('marseMARSE')} {hexs(b) if b != '-' else '-'} {n}" + (" " + kids if kids else "")
 
 
 def boundary_free(case):
